@@ -398,6 +398,7 @@ func TestVerifC17Logger(t *testing.T) {
 				c17lCase(out, ops)
 				_, sink := c17lRun(ops)
 				fmt.Printf("replay %s\n  sink: %q\n", ln, sink)
+			case c17fReplay(out, ln):
 			case strings.HasPrefix(ln, "parse|"):
 				var b []byte
 				if h := strings.TrimPrefix(ln, "parse|"); h != "-" {
@@ -500,4 +501,5 @@ func TestVerifC17Logger(t *testing.T) {
 		}
 		c17lParse(out, b)
 	}
+	c17fAll(out, r)
 }
